@@ -94,10 +94,40 @@ theorem lines_unlines (fs : List (List Char)) (h : ∀ f ∈ fs, '\n' ∉ f ∧ 
   | cons f fs ih =>
     rw [List.map_cons, hcr f (h f (by simp)).2, ih (fun g hg => h g (by simp [hg]))]
 
-/-- line i of the archived `formulae.txt` is formula i (so entry `formula-i` corresponds to line i) -/
-theorem formulae_lines (fs : List (List Char)) (h : ∀ f ∈ fs, '\n' ∉ f ∧ f.getLast? ≠ some '\r') (i : Nat) :
-    (Loader.lines ((fs.map (· ++ ['\n'])).flatten))[i]? = fs[i]? := by
-  rw [lines_unlines fs h]
+theorem oneLine_ok (f : List Char) : '\n' ∉ oneLine f ∧ (oneLine f).getLast? ≠ some '\r' := by
+  have hno : ∀ c ∈ oneLine f, c ≠ '\n' ∧ c ≠ '\r' := by
+    intro c hc
+    simp only [oneLine, List.mem_map] at hc
+    obtain ⟨d, _, rfl⟩ := hc
+    by_cases h : d = '\n' ∨ d = '\r'
+    · rw [if_pos h]; decide
+    · rw [if_neg h]; exact ⟨fun e => h (Or.inl e), fun e => h (Or.inr e)⟩
+  refine ⟨fun hm => (hno _ hm).1 rfl, fun hl => ?_⟩
+  exact (hno _ (List.mem_of_getLast? hl)).2 rfl
+
+/-- a formula without line breaks is archived as it is -/
+theorem oneLine_id (f : List Char) (h : '\n' ∉ f ∧ '\r' ∉ f) : oneLine f = f := by
+  unfold oneLine
+  induction f with
+  | nil => rfl
+  | cons c cs ih =>
+    simp only [List.mem_cons, not_or] at h
+    have hc : ¬ (c = '\n' ∨ c = '\r') := fun e => e.elim (fun e => h.1.1 e.symm) (fun e => h.2.1 e.symm)
+    simp only [List.map_cons, if_neg hc, List.cons.injEq, true_and]
+    exact ih ⟨h.1.2, h.2.2⟩
+
+/-- line i of the archived `formulae.txt` is formula i written on one line (so entry `formula-i` corresponds to line i) —
+for EVERY list of formula strings (since the repair D17; before it a line break inside a formula shifted the lines) -/
+theorem formulae_lines (fs : List (List Char)) (i : Nat) :
+    (Loader.lines ((fs.map (fun f => oneLine f ++ ['\n'])).flatten))[i]? = (fs.map oneLine)[i]? := by
+  have := lines_unlines (fs.map oneLine) (by
+    intro f hf
+    simp only [List.mem_map] at hf
+    obtain ⟨g, _, rfl⟩ := hf
+    exact oneLine_ok g)
+  simp only [List.map_map] at this
+  have e : (fs.map (fun f => oneLine f ++ ['\n'])) = fs.map ((fun x => x ++ ['\n']) ∘ oneLine) := rfl
+  rw [e, this]
 
 /-! Non-vacuity -/
 example : load (α := List Char) id (entries id [(['s', '1'], ['X'])] ['m'] [['f']])
